@@ -892,14 +892,17 @@ class Folder:
                 return args[1]
             raise Unfoldable(f"call {fn_txt}: StopIteration")
         if callable(f):
+            if f in (map, filter) and args and not callable(args[0]) and args[0] is not None:
+                # map / filter with a function of the analysed program or of a library that is not executed here
+                raise Unfoldable(f"call {fn_txt}: the function argument is not a folded builtin")
             try:
                 r = f(*args, **kw)
+                if isinstance(r, (range, enumerate, zip, reversed, map, filter)) or type(r).__name__ in ("dict_items", "dict_values", "dict_keys"):
+                    return list(r)
             except Unfoldable:
                 raise
             except Exception as e:
                 raise Unfoldable(f"call {fn_txt}: {e!r}")
-            if isinstance(r, (range, enumerate, zip, reversed, map)) or type(r).__name__ in ("dict_items", "dict_values", "dict_keys"):
-                return list(r)
             return r
         raise Unfoldable(f"call {fn_txt}")
 
